@@ -11,10 +11,15 @@
    process dies (whatever is on disk stays), [IoError] = like Tick, but if the pending call is one
    of the four I/O calls it raises OSError instead of being executed.  The schedule is the op list.
 
-   [cfg] = (fix_flush, fix_busy) selects the code that is modelled:
+   [CopyFail] = like Tick, but if the pending call is copy.deepcopy(self.data) the main thread
+   changes the size of the live dict while the copy iterates it: deepcopy raises RuntimeError.
+
+   [cfg] = (fix_flush, fix_busy, fix_copy) selects the code that is modelled:
      fix_flush = false : the code before fixes/C15-final-flush.patch   (`if data and dirty` — data is always None)
      fix_busy  = false : the code before fixes/C15-busy-finally.patch  (is_busy not reset when save raises)
-   (true, true) is the current tree with both patches; the correspondence run uses that one.
+     fix_copy  = false : the code before fixes/C15-snapshot-in-try.patch (deepcopy outside the try: the
+                         RuntimeError ends the writer thread)
+   (true, true, true) is the tree with all patches; the correspondence run uses that one.
 
    Versions of the data are abstract tokens (Z); 0 is the empty store ({}), 100 a pre-existing file.
    Definitions only; proofs are in Lemmas.v. *)
@@ -52,11 +57,12 @@ Record state := mk {
   temp : fileT;          (* _<name>.yaml                                       *)
   crashed : bool }.
 
-Inductive op := Save (v : Z) | Shutdown | Crash | IoError | Tick.
+Inductive op := Save (v : Z) | Shutdown | Crash | IoError | Tick | CopyFail.
 
-Definition cfg := (bool * bool)%type.
-Definition fix_flush (c : cfg) := fst c.
-Definition fix_busy (c : cfg) := snd c.
+Definition cfg := (bool * bool * bool)%type.
+Definition fix_flush (c : cfg) := fst (fst c).
+Definition fix_busy (c : cfg) := snd (fst c).
+Definition fix_copy (c : cfg) := snd c.
 
 Definition set_pc (s : state) (p : pcT) : state :=
   mk p (final s) (data s) (dirty s) (busy s) (stopper s) (local s) (file s) (temp s) (crashed s).
@@ -94,6 +100,18 @@ Definition tick (c : cfg) (s : state) : state :=
   | PDone => s
   end.
 
+(* copy.deepcopy(self.data) raises (the live dict changed size during the iteration).  Fixed code:
+   caught and logged, the data is marked dirty again (retried after the rate-limit sleep); is_busy
+   has not been touched yet.  Code before the patch, and the flush after the loop: the exception
+   escapes _writing_thread, the thread ends. *)
+Definition copy_fail (c : cfg) (s : state) : state :=
+  if final s then set_pc s PDone
+  else if fix_copy c
+       then mk PRate (final s) (data s) true (busy s) (stopper s) (local s) (file s) (temp s) (crashed s)
+       else set_pc s PDone.
+
+Definition copy_point (p : pcT) : bool := match p with PCopy => true | _ => false end.
+
 Definition io_point (p : pcT) : bool :=
   match p with POpen | PW1 | PW2 | PReplace => true | _ => false end.
 
@@ -105,6 +123,7 @@ Definition step (c : cfg) (s : state) (o : op) : state :=
   | Crash => mk (pc s) (final s) (data s) (dirty s) (busy s) (stopper s) (local s) (file s) (temp s) true
   | IoError => if io_point (pc s) then raise_in_save c s else tick c s
   | Tick => tick c s
+  | CopyFail => if copy_point (pc s) then copy_fail c s else tick c s
   end.
 
 Definition run (c : cfg) (s : state) (ops : list op) : state := fold_left (step c) ops s.
@@ -172,6 +191,7 @@ Fixpoint clean_from (stopped : bool) (ops : list op) : bool :=
   | Tick :: r => clean_from stopped r
   | Crash :: _ => false
   | IoError :: _ => false
+  | CopyFail :: _ => false
   end.
 
 Definition ticks (n : nat) : list op := repeat Tick n.
@@ -299,6 +319,21 @@ Definition vars_run (i : list vop * Z) : list (list Z) :=
   let '(ops, dt) := i in
   let '(t, sf) := vtrace vinit ops in
   t ++ [load_row (reload (vnow sf + dt) (vdisk sf))].
+
+(* what the next boot may find instead of the file a clean shutdown left.  t = 0: the file as written;
+   1..9: a file that is unusable as a whole (missing, empty, not YAML, not UTF-8, top-level list or
+   scalar): FileManager.load(halt_on_error=False) / DataManager._load / get_data end up with an empty
+   dict; 10+n: the entry of variable n is malformed (not a dict, or no "value" key):
+   load_machine_vars skips that entry *)
+Definition drop (n : Z) (d : ddisk) : ddisk := filter (fun kv => negb (fst kv =? n)) d.
+
+Definition tampered (t : Z) (d : ddisk) : ddisk :=
+  if t =? 0 then d else if t <? 10 then [] else drop (t - 10) d.
+
+Definition vars_run_t (i : list vop * Z * Z) : list (list Z) :=
+  let '(ops, dt, t) := i in
+  let '(tr, sf) := vtrace vinit ops in
+  tr ++ [load_row (reload (vnow sf + dt) (tampered t (vdisk sf)))].
 
 (* ============================================================================================ *)
 (* FileManager.save called directly (suite "fsave": real YamlInterface, real ruamel dumper,      *)
